@@ -74,7 +74,7 @@ func H_C13_queries() {
 	RegisterFunction("vid", idFunc)
 	verif.Opt("schedules", 1)
 	verif.Opt("race", 1)
-	verif.Opt("preempt", 1+verif.Tier())
+	verif.Opt("preempt", 1) // the thorough tier adds the self-pairs of the queries with goroutines instead of a second preemption
 	docA, rowsA := nestedDoc(1, 1)
 	docB := docA
 	if shared == 0 {
